@@ -20,6 +20,9 @@
 //	range variables over X                            fresh iff elements of X are
 //	parameters, receivers, package-level variables, results of any other call                     NOT fresh
 //
+// Files listed after `--own-receiver` (formats/gltf: a stateful *Writer) are scanned with ONE relaxation: memory reached
+// from a receiver or parameter of type *Writer counts as the writer's own state (buffers, tables, caches), not as mesh memory;
+// every other store there — in particular any `*p = v` through a mesh pointer handed in by the caller — is judged as usual.
 // Anything the walker does not recognise is NOT fresh.  Output: Lean data; the obligation
 //
 //	∀ s ∈ sites, s.fresh = true
@@ -66,6 +69,7 @@ type c01Fn struct {
 	notE    map[*ast.Object]bool       // fixpoint: variables whose elements are not all fresh
 	fields  map[string][]ast.Expr      // everything ever stored into a struct field of that name (x.f = e, T{f: e})
 	notFld  map[string]bool            // fixpoint: field names that received something not fresh
+	recv    map[*ast.Object]bool       // *Writer receiver / parameters: the writer's own state is not mesh memory (--own-receiver files)
 	pkg     string                     // package name of the function being analysed
 }
 
@@ -99,7 +103,34 @@ func (f *c01Fn) isLocal(id *ast.Ident) bool {
 	return ok && !f.params[id.Obj]
 }
 
+// in --own-receiver files: memory reached from the method's own pointer receiver (a stateful writer object: its buffers,
+// tables and caches) is the writer's, not a mesh's
+func (f *c01Fn) recvRooted(e ast.Expr) bool {
+	if len(f.recv) == 0 {
+		return false
+	}
+	for {
+		switch v := c01Unparen(e).(type) {
+		case *ast.Ident:
+			return v.Obj != nil && f.recv[v.Obj]
+		case *ast.SelectorExpr:
+			e = v.X
+		case *ast.IndexExpr:
+			e = v.X
+		case *ast.SliceExpr:
+			e = v.X
+		case *ast.StarExpr:
+			e = v.X
+		default:
+			return false
+		}
+	}
+}
+
 func (f *c01Fn) fresh(e ast.Expr) bool {
+	if f.recvRooted(e) {
+		return true
+	}
 	switch v := c01Unparen(e).(type) {
 	case nil:
 		return true // `var x T`: zero value
@@ -353,6 +384,8 @@ func (f *c01Fn) sites(file, fn string, body ast.Node) []c01Site {
 		case *ast.SelectorExpr:
 			r := f.root(l.X)
 			switch {
+			case f.recvRooted(l.X):
+				add(l.Pos(), "field-store (receiver state)", l.X, true)
 			case r == nil:
 				add(l.Pos(), "field-store", l.X, false)
 			case r.Obj == nil || f.ptrPar[r.Obj] || (!f.isLocal(r) && !f.params[r.Obj]):
@@ -432,7 +465,13 @@ func c01Stores(repo, out string, args []string) error {
 		return fmt.Errorf("c01.stores: no files / directories given")
 	}
 	var files []string
+	ownRecv := map[string]bool{}
+	own := false
 	for _, a := range args {
+		if a == "--own-receiver" {
+			own = true
+			continue
+		}
 		p := filepath.Join(repo, a)
 		st, err := os.Stat(p)
 		if err != nil {
@@ -440,12 +479,14 @@ func c01Stores(repo, out string, args []string) error {
 		}
 		if !st.IsDir() {
 			files = append(files, p)
+			ownRecv[p] = own
 			continue
 		}
 		ms, _ := filepath.Glob(filepath.Join(p, "*.go"))
 		for _, m := range ms {
 			if !strings.HasSuffix(m, "_test.go") {
 				files = append(files, m)
+				ownRecv[m] = own
 			}
 		}
 	}
@@ -522,6 +563,26 @@ func c01Stores(repo, out string, args []string) error {
 			nFuncs++
 			f := newFn(p)
 			f.fieldList(fd.Recv)
+			if ownRecv[p] {
+				// the stateful writer object: receiver or parameter of type *Writer
+				f.recv = map[*ast.Object]bool{}
+				for _, fl := range []*ast.FieldList{fd.Recv, fd.Type.Params} {
+					if fl == nil {
+						continue
+					}
+					for _, fld := range fl.List {
+						if st, ptr := fld.Type.(*ast.StarExpr); ptr {
+							if id, ok := st.X.(*ast.Ident); ok && id.Name == "Writer" {
+								for _, n := range fld.Names {
+									if n.Obj != nil {
+										f.recv[n.Obj] = true
+									}
+								}
+							}
+						}
+					}
+				}
+			}
 			f.fieldList(fd.Type.Params)
 			f.fieldList(fd.Type.Results)
 			f.collect(fd.Body)
